@@ -1,57 +1,62 @@
 (** Correspondence cases for C19: a C05 case (program, context, verdict, number of AfterStep snapshots and
-    their hash — observed with a recording debugger attached) plus the observed callback sequence projected
-    to the lifecycle events (stack push/pop callbacks removed), as a space-separated string.
-    [check]: C05's check AND the model's event list equals the observed one AND the observed one is accepted
-    by the lifecycle automaton (or is empty: arguments rejected before a thread exists). *)
+    their hash — observed with a recording debugger attached) plus the complete observed callback sequence, stack
+    push/pop callbacks included, one character per event.
+    [check]: C05's check AND the model's event list equals the lifecycle part of the observed sequence AND the
+    complete sequence is accepted by the full automaton of model/DebugStack.v (stack callbacks paired and only
+    where the documented order allows them) — or is empty: arguments rejected before a thread exists. *)
 From Coq Require Import String Ascii List NArith ZArith Bool.
 From Coq Require Import Strings.Byte.
-From GoBT Require Import lib.Bytes lib.Hex model.Interp model.Debug corr.Corr corr.C05.
+From GoBT Require Import lib.Bytes lib.Hex model.Interp model.Debug model.DebugStack corr.Corr corr.C05.
 Import ListNotations.
 
 Record case19 := mkCase19 { k19_case : case; k19_trace : string }.
 
-(** split at spaces *)
-Fixpoint tokens_aux (s : string) (cur : string) : list string :=
+(** the observed callback sequence, one character per event:
+    E BeforeExecute, e AfterExecute, S BeforeStep, s AfterStep, O BeforeExecuteOpcode, o AfterExecuteOpcode,
+    C BeforeScriptChange, c AfterScriptChange, K AfterSuccess, R AfterError,
+    u BeforeStackPush+AfterStackPush, d BeforeStackPop+AfterStackPop, x BeforeStackPop without AfterStackPop
+    (anything else, e.g. the harness' '?' for an unpaired stack callback, does not parse) *)
+Definition fev_of_ascii (a : ascii) : option fev :=
+  if Ascii.eqb a "E" then Some (FL BE) else if Ascii.eqb a "e" then Some (FL AE)
+  else if Ascii.eqb a "S" then Some (FL BS) else if Ascii.eqb a "s" then Some (FL AS)
+  else if Ascii.eqb a "O" then Some (FL BO) else if Ascii.eqb a "o" then Some (FL AO)
+  else if Ascii.eqb a "C" then Some (FL BC) else if Ascii.eqb a "c" then Some (FL AC)
+  else if Ascii.eqb a "K" then Some (FL EOK) else if Ascii.eqb a "R" then Some (FL EER)
+  else if Ascii.eqb a "u" then Some FPush else if Ascii.eqb a "d" then Some FPop
+  else if Ascii.eqb a "x" then Some FPopFail else None.
+
+Fixpoint parse_full (s : string) : option (list fev) :=
   match s with
-  | EmptyString => match cur with EmptyString => [] | _ => [cur] end
-  | String a r =>
-      if Ascii.eqb a " "%char
-      then match cur with EmptyString => tokens_aux r EmptyString | _ => cur :: tokens_aux r EmptyString end
-      else tokens_aux r (cur ++ String a EmptyString)
+  | EmptyString => Some []
+  | String a r => match fev_of_ascii a, parse_full r with
+                  | Some e, Some es => Some (e :: es)
+                  | _, _ => None
+                  end
   end.
-Definition tokens (s : string) : list string := tokens_aux s EmptyString.
-
-Definition ev_of_token (t : string) : option ev :=
-  if String.eqb t "BE" then Some BE else if String.eqb t "AE" then Some AE
-  else if String.eqb t "BS" then Some BS else if String.eqb t "AS" then Some AS
-  else if String.eqb t "BO" then Some BO else if String.eqb t "AO" then Some AO
-  else if String.eqb t "BC" then Some BC else if String.eqb t "AC" then Some AC
-  else if String.eqb t "OK" then Some EOK else if String.eqb t "ER" then Some EER
-  else None.
-
-Fixpoint evs_of_tokens (l : list string) : option (list ev) :=
-  match l with
-  | [] => Some []
-  | t :: r => match ev_of_token t, evs_of_tokens r with
-              | Some e, Some es => Some (e :: es)
-              | _, _ => None
-              end
-  end.
-Definition parse_trace (s : string) : option (list ev) := evs_of_tokens (tokens s).
 
 Definition input_of (k : case) : exec_input :=
   mkExecInput (k_unlock k) (k_lock k) (k_flags k) (k_has_tx k) (k_has_prev k)
               (k_tx_lock k) (k_tx_version k) (k_in_seq k).
 
+(** the run is a pre-Genesis pay-to-script-hash evaluation (the only runs in which stack callbacks may follow a
+    script change) *)
+Definition p2sh_run (k : case) : bool :=
+  let flags := normalise_flags (k_flags k) in
+  N.testbit flags F_BIP16 && negb (N.testbit flags F_GENESIS) && is_p2sh (k_lock k).
+
 Definition check (k : case19) : bool :=
   C05.check (k19_case k) &&
-  match parse_trace (k19_trace k) with
+  match parse_full (k19_trace k) with
   | None => false
-  | Some observed =>
+  | Some full =>
+      let observed := project full in
       evs_eqb (events_of (engine_execute_dbg no_sigops (input_of (k19_case k)))) observed &&
-      match observed with [] => true | _ => lifecycle_ok observed end
+      match full with
+      | [] => true
+      | _ => full_lifecycle_ok (p2sh_run (k19_case k)) full && lifecycle_ok observed
+      end
   end.
 Definition mismatches := mismatches_with check.
 
-Example parse_trace_ex : parse_trace "BE BS BO AO AS BS BO AE ER" = Some [BE; BS; BO; AO; AS; BS; BO; AE; EER].
+Example parse_full_ex : option_map project (parse_full "ESOuosSOxeR") = Some [BE; BS; BO; AO; AS; BS; BO; AE; EER].
 Proof. reflexivity. Qed.
